@@ -73,7 +73,7 @@ class Model:
         return sum(g['npulses'] for g in self.geo)
 
 
-def gen_geometry(rng, m, ground):
+def gen_geometry(rng, m, ground, force_template=None):
     """Pick a geometry template; fills m.geo / m.argv_geo.
 
     ground: False for free space; True when z must be >= 0 and wires that
@@ -89,6 +89,8 @@ def gen_geometry(rng, m, ground):
              'two_monopoles', 'arc', 'helix', 'gnd_star', 'tapered', 'two_wires',
              'array', 'zigzag', 'mixed', 'gnd_fan', 'array_tail', 'helix_fed']
     t = rng.choice(gnd_t if ground else free_t)
+    if force_template and force_template in (gnd_t if ground else free_t):
+        t = force_template
     m.template = t
     m.length = L
     a = []
@@ -552,11 +554,11 @@ def gen_loads(rng, m, kinds):
     m.argv_load = a
 
 
-def gen_model(rng, env=None, kinds=None):
+def gen_model(rng, env=None, kinds=None, template=None):
     m = Model()
     if env is None:
         env = rng.choice(['free', 'free', 'ideal', 'ideal', 'real1', 'real2', 'real3', 'real3', 'real4'][:rng.choice([7, 7, 9])])
-    gen_geometry(rng, m, ground=(env != 'free'))
+    gen_geometry(rng, m, ground=(env != 'free'), force_template=template)
     gen_env(rng, m, env)
     gen_sources(rng, m)
     if kinds is None:
@@ -574,7 +576,11 @@ def gen_model(rng, env=None, kinds=None):
     return m
 
 
-def variant_model(rng, m):
+VARIANT_KINDS = ['scale', 'same', 'load_value', 'voltage', 'translate', 'rotate', 'drop_loads', 'taper',
+                 'segments', 'radius', 'media_form', 'toggle_ground', 'other_ground', 'reattach', 'taper_limits']
+
+
+def variant_model(rng, m, force=None):
     """A sibling of model m: the same antenna with one small change.  Worlds
     that run siblings at the *same* frequencies in one interpreter are what
     shows state kept outside a single object (module-level caches keyed too
@@ -584,7 +590,9 @@ def variant_model(rng, m):
     how = rng.choice(['scale', 'scale', 'same', 'load_value', 'voltage', 'translate', 'rotate', 'drop_loads',
                       'taper', 'segments', 'radius', 'media_form', 'media_form',
                       'toggle_ground', 'toggle_ground', 'other_ground', 'reattach', 'reattach', 'taper_limits'])
-    if any(x == '--taper-wire' for x in v.argv_geo) and rng.random() < 0.4:
+    if force:
+        how = force
+    elif any(x == '--taper-wire' for x in v.argv_geo) and rng.random() < 0.4:
         how = 'taper_limits'
     if how == 'taper_limits':
         # the same taper with / without its optional min and max limits
@@ -599,7 +607,7 @@ def variant_model(rng, m):
                                          ([_g(rng.choice([0.5, 1.0, 3.0]))] if rng.random() < 0.5 else []))
         else:
             how = rng.choice(['voltage', 'segments', 'radius', 'same'])
-    if 'tail' in m.features and rng.random() < 0.5:
+    if 'tail' in m.features and rng.random() < 0.5 and not force:
         how = 'reattach'
     if how == 'reattach':
         # same wires, same segment counts, but one wire end joined to a
@@ -1456,6 +1464,7 @@ def floor_plans(base_seed, tier='quick'):
     # sizes beyond library / block thresholds
     for j, kind in enumerate(['model', 'grid', 'cli', 'grid']):
         plans.append(big_plan(base_seed * 1000003 + 960000 + j, tier, kind))
+    plans += sibling_floor_plans(base_seed, tier)
     return plans
 
 
@@ -1735,3 +1744,77 @@ def big_plan(run_seed, tier='quick', kind=None):
                 config='perturbed' if perturbed else 'plain',
                 hist=env_side(rng, perturbed, 'hist'), orac=env_side(rng, perturbed, 'orac'),
                 disk={}, tasks=tasks, schedule=sched)
+
+
+# -------------------------------------------------------------- sibling floor
+
+# which base models make a sibling change meaningful
+_SIB_BASE = {
+    'scale': dict(envs=['free'], templates=['tapered', 'vee', 'two_wires', 'helix', 'radii2'], kinds=[['skin_c'], ['insulation'], ['impedance']]),
+    'translate': dict(envs=['free'], templates=['tapered', 'vee', 'arc', 'star'], kinds=[['skin_c'], [], ['rlc']]),
+    'rotate': dict(envs=['free'], templates=['tapered', 'bent3', 'arc', 'loop'], kinds=[[], ['trap']]),
+    'same': dict(envs=['free', 'ideal', 'real2'], templates=[None], kinds=[None]),
+    'load_value': dict(envs=['free', 'ideal'], templates=[None], kinds=[['impedance'], ['skin_c'], ['insulation']]),
+    'voltage': dict(envs=['free', 'ideal'], templates=[None], kinds=[None]),
+    'drop_loads': dict(envs=['free', 'real1'], templates=[None], kinds=[['skin_r', 'impedance'], ['insulation', 'laplace']]),
+    'taper': dict(envs=['free', 'ideal'], templates=['dipole', 'tapered', 'vee'], kinds=[None]),
+    'taper_limits': dict(envs=['free', 'ideal'], templates=['tapered'], kinds=[None]),
+    'segments': dict(envs=['free', 'ideal'], templates=[None], kinds=[None]),
+    'radius': dict(envs=['free', 'ideal'], templates=[None], kinds=[['insulation'], ['skin_c'], None]),
+    'media_form': dict(envs=['real2', 'real3', 'real4'], templates=[None], kinds=[None]),
+    'toggle_ground': dict(envs=['free', 'ideal'], templates=['dipole', 'vee', 'two_wires', 'array', 'zigzag'], kinds=[None]),
+    'other_ground': dict(envs=['ideal', 'real1', 'real2'], templates=[None], kinds=[None]),
+    'reattach': dict(envs=['free', 'ideal'], templates=['array_tail', 'zigzag', 'tee_free', 'gnd_star'], kinds=[None]),
+    'fuzz': dict(envs=['free', 'ideal', 'real2'], templates=[None], kinds=[None]),
+}
+
+
+def sibling_floor_plans(base_seed, tier='quick', reps=2):
+    """For every sibling change of the list, `reps` worlds in which a base
+    model that makes the change meaningful and its sibling run side by side
+    at the same frequencies - once as two live objects, once as two command
+    lines in one interpreter.  Coverage of the sibling dimension must not be
+    left to the luck of the random draw."""
+    plans = []
+    i = 0
+    for kind in list(VARIANT_KINDS) + ['fuzz']:
+        spec = _SIB_BASE[kind]
+        for rep in range(reps):
+            seed = base_seed * 1000003 + 970000 + i
+            i += 1
+            rng = random.Random(seed)
+            for attempt in range(20):
+                base = gen_model(rng, env=rng.choice(spec['envs']), kinds=rng.choice(spec['kinds']),
+                                 template=rng.choice(spec['templates']))
+                sib = fuzz_variant(rng, base) if kind == 'fuzz' else variant_model(rng, base, force=kind)
+                if kind == 'fuzz' or ('variant_' + kind) in sib.features:
+                    break
+            pool, probes = gen_pool(rng, base, k=2)
+            far = gen_far(rng)
+            near = gen_near(rng, base)
+            ops = [['COMPUTE'], ['FAR', 0], ['OBS_NUM'], ['OBS_REPORT', ['far-field']], ['SET_F', 1], ['COMPUTE'],
+                   ['NEAR', 0], ['FAR', 0], ['OBS_NUM'], ['OBS_CMDLINE']]
+            tasks = []
+            for mm_ in (base, sib):
+                tasks.append(dict(kind='api', builder='cli', argv=mm_.argv(), pool=list(pool[:2]), fars=[far],
+                                  nears=[near], ops=[list(o) for o in ops], template=mm_.template, env=mm_.env,
+                                  features=sorted(set(mm_.features)), probes=list(probes),
+                                  npulses=mm_.min_pulses() + 2 * len(mm_.geo)))
+            # base fully first, then the sibling (and, second repetition, interleaved)
+            sched = [0] * len(ops) + [1] * len(ops) if rep % 2 == 0 else [x for _ in ops for x in (0, 1)]
+            plans.append(dict(version=1, run_seed=seed, tier=tier, floor=True, config='plain',
+                              hist=env_side(rng, False, 'hist'), orac=env_side(rng, False, 'orac'),
+                              disk={}, tasks=tasks, schedule=sched))
+            fa = field_args(rng, base, force=['far-field'])
+            a0 = ['-f', repr(pool[0])] + base.argv() + fa + ['--output-cmdline', 'sib.txt']
+            a1 = ['-f', repr(pool[0])] + sib.argv() + fa + ['--output-cmdline', 'sib.txt']
+            inc = float(repr(round(pool[1] - pool[0], 6)))
+            cli = dict(kind='cli', ops=[['RUN', a0], ['RUN', a1], ['SWEEP', a0, inc, 2, 0], ['SWEEP', a1, inc, 2, 0],
+                                        ['RUN', a0], ['RUN', a1]],
+                       template=base.template, env=base.env, features=sorted(set(base.features + sib.features)),
+                       probes=list(probes), npulses=base.min_pulses() + 2 * len(base.geo), pool=list(pool))
+            cli['ops'] = [_copy_op(o) for o in cli['ops']]
+            plans.append(dict(version=1, run_seed=seed + 500, tier=tier, floor=True, config='plain',
+                              hist=env_side(rng, False, 'hist'), orac=env_side(rng, False, 'orac'),
+                              disk={}, tasks=[cli], schedule=[0] * len(cli['ops'])))
+    return plans
